@@ -325,32 +325,23 @@ def run(ctx):
         ctx.missing("R-GRD", "has_matching_origins", "rrdp::NotificationFile::has_matching_origins")
     else:
         ctx.saw_fn(hb.name)
-        g = pred_matcher(r"Https::eq_authority$", (r"^base$", r"^UriAndHash::uri\(NotificationFile::snapshot\(self\)\)$"))
-        mp = MustPass(f, lambda c: False, guard_fn=lambda bd, s, bb: guard_edges(bd, s, bb, g), name="snapshot authority")
+        base = re.escape(hb.local_name(2) or "_2") if hb.arg_count >= 2 else "base"
+        snap = _uri_of(r"(?:NotificationFile::snapshot\(self\)|self\.snapshot)")
+        g = _sym_pred_matcher(r"Https::eq_authority$", "^%s$" % base, "^%s$" % snap)
+        mp = MustPass(f, lambda c: False, guard_fn=lambda bd, s, bb: guard_edges(bd, s, bb, g), name="snapshot authority",
+                      ret_guard=lambda t: _ret_is_literal(t, g))
         ok = mp.holds(hb.name)
         ctx.ob("R-GRD", "has_matching_origins:snapshot", ok, "true only if the snapshot URI has the base's authority", where=hb.loc,
                detail=None if ok else K.why(f, mp, hb.name))
-        # deltas: `any(|d| !eq_authority(d))` true → false
-        anyc = [c for c in hb.calls() if c.name == "any" and not hb.is_cleanup(c.bb)]
-        okd = False
-        if len(anyc) == 1:
-            a = K.arg_terms(anyc[0])
-            if a[1][0] == "closure" and re.match(r"^(\w+⟵)?self\.deltas↓Ok\.0$", render(a[0])):
-                cb2 = f.body(a[1][1])
-                vals = [render(t) for _, _, t in success_values(cb2)] if cb2 else []
-                inner_ok = vals == ["Not(Https::eq_authority(^base, UriAndHash::uri(delta)))"] or \
-                    vals == ["Not(Https::eq_authority(^base, DeltaInfo::uri(delta)))"]
-                g2 = pred_matcher(r"::any$", (r"self\.deltas",), positive=False)
-                mp2 = MustPass(f, lambda c: False, guard_fn=lambda bd, s, bb: guard_edges(bd, s, bb, g2), name="no foreign delta",
-                               )
-                # the Err(deltas) arm has no deltas to check: allow paths on which self.deltas is Err
-                from engine.rules import variant_edge, any_of
-                mp2 = MustPass(f, lambda c: False, guard_fn=any_of(lambda bd, s, bb: guard_edges(bd, s, bb, g2),
-                                                                  lambda bd, s, bb: variant_edge(bd, s, bb, r"^self\.deltas$", 1)),
-                               name="no foreign delta")
-                okd = inner_ok and mp2.holds(hb.name)
+        # deltas: every element of the delta list is tested (loop, all / any / find …); an absent (Err) or empty list has
+        # nothing to test
+        def origin_lit(shape, elem, bd):
+            if shape != "each":
+                return None
+            return K.pred_lit(r"^Https::eq_authority\((?:%s, %s|%s, %s)\)$" % (base, _uri_of(re.escape(elem)), _uri_of(re.escape(elem)), base))
+        okd, det = _forall_deltas(f, hb, origin_lit)
         ctx.ob("R-GRD", "has_matching_origins:every-delta", okd,
-               "true only if no delta URI has another authority (every delta is tested)", where=hb.loc)
+               "true only if no delta URI has another authority (every delta is tested)", where=hb.loc, detail=None if okd else det)
     sb = f.body("rrdp::NotificationFile::sort_and_verify_deltas")
     if sb is None:
         ctx.missing("R-GRD", "sort_and_verify_deltas", "rrdp::NotificationFile::sort_and_verify_deltas")
@@ -358,30 +349,28 @@ def run(ctx):
         ctx.saw_fn(sb.name)
         oc = outcome(sb)
         s = oc.sym
-        # the step test: next serial == last + 1, false edge returns false
-        found = False
-        okg = False
+        carried = _carried_serials(f, sb)
+
+        def chain_lit(shape, elem, bd):
+            e = re.escape(elem)
+            if shape == "windows":
+                return _succ_lit(_serial_of(e + r"\[0\]"), _serial_of(e + r"\[1\]"))
+            if shape == "zip":
+                return _succ_lit(_serial_of(e + r"\.0"), _serial_of(e + r"\.1"))
+            if shape == "tail" and bd is sb and carried:
+                return _succ_lit(r"(?:%s)" % "|".join(r"\$" + re.escape(n) for n in sorted(carried)), _serial_of(e))
+            return None
+        okg, det = _forall_deltas(f, sb, chain_lit, need_update=carried)
+        ctx.ob("R-GRD", "sort_and_verify_deltas:consecutive", okg,
+               "sort_and_verify_deltas returns true only if each retained delta's serial is the previous one plus 1", where=sb.loc,
+               detail=None if okg else det)
         overflow = []
         for bi, blk in enumerate(sb.blocks):
             t = blk["term"]
-            if t["t"] == "switch" and t.get("dty") == "bool":
-                at = bool_atom(s.operand(t["discr"]))
-                if at and at[0] == "eq" and at[2] is not None:
-                    ra, rb_ = render(at[1]), render(at[2])
-                    both = ra + " | " + rb_
-                    if "last_seen" in both and "DeltaInfo::serial(" in both:
-                        found = True
-                        plus1 = re.search(r"AddWithOverflow\(\$?last_seen[^,]*, 1\)|checked_add\(\$?last_seen[^,]*, 1\)", both) is not None
-                        e = switch_bool_edges(sb, bi)
-                        eq_t = e[1] if at[3] else e[0]
-                        ne_t = e[0] if at[3] else e[1]
-                        okg = plus1 and ne_t not in oc.success_reach() and eq_t in oc.success_reach()
             if t["t"] == "assert" and t["kind"].startswith("Overflow:Add"):
                 ops = [render(strip_deep(s.operand(o))) for o in t["ops"]]
-                if any("last_seen" in o for o in ops):
+                if any(re.search(r"\$(?:%s)\b" % "|".join(map(re.escape, sorted(carried))), o) for o in ops) if carried else False:
                     overflow.append(sb.where(bi))
-        ctx.ob("R-GRD", "sort_and_verify_deltas:consecutive", found and okg,
-               "sort_and_verify_deltas returns true only if each retained delta's serial is the previous one plus 1", where=sb.loc)
         ctx.ob("R-PANIC", "sort_and_verify_deltas:serial+1-cannot-overflow", not overflow,
                "the successor of a delta serial taken from the (untrusted) notification file is computed without an "
                "overflowing addition", where=overflow[0] if overflow else sb.loc, detail=overflow or None)
@@ -389,6 +378,356 @@ def run(ctx):
         ctx.ob("R-CHK", "sort_and_verify_deltas:sorted-first", len(srt) == 1 and all(
             x.bb in sb.reachable(srt[0].bb) for x in sb.calls() if x.name == "serial" and not sb.is_cleanup(x.bb)),
             "the deltas are sorted by serial before the chain is checked", where=sb.loc)
+
+
+# ---------------------------------------------------------------------------------------------
+# C09.e: quantified checks over the notification's delta list, whatever their spelling
+#
+#   "returns true only if every delta d satisfies L(d)"        (origin check)
+#   "returns true only if every adjacent pair (p, n) of the retained deltas satisfies L(p, n)"   (chain check)
+#
+# is established from three facts read off the MIR, none of which depends on local / parameter / helper names:
+#   (1) WHAT is iterated: the receiver of the loop's `next` / of the combinator denotes the delta list
+#       (`self.deltas↓Ok.0`, or an accessor of `self` returning it — and nothing for an Err list), possibly through an
+#       adjacent-pair adapter (`windows(2)`, `zip(skip(1))`, the tail `[1..]` with the predecessor carried in a local);
+#   (2) the per-element decision: the loop continues / the predicate closure reports "passed" only when the literal
+#       holds (engine.orderlogic.implies on the closure; guard edges in the loop form);
+#   (3) the function's own decision: every path to a `true` return crosses "list is Err", "list is empty", "the
+#       combinator said every element passed" (as a branch or as the returned value itself) or the exhausted-iterator
+#       exit of a loop whose every iteration is guarded.
+# Newly extracted private helpers are folded back by the engine's views before this is looked at.
+
+from engine import orderlogic as _OL
+from engine import sym as _symmod
+from engine.sym import Sym as _Sym
+from engine.rules import variant_edge, any_of, bool_place_edge, switch_on_locals
+
+_QUANT = {"all": True, "any": False, "find": False, "position": False}
+
+
+def _uri_of(x):
+    """regex: the URI of the UriAndHash / DeltaInfo rendered as (regex) x, by accessor or by field."""
+    return r"(?:\w+::uri\(%s(?:\.\w+)?\)|%s(?:\.\w+)?\.uri)" % (x, x)
+
+
+def _serial_of(x):
+    return r"(?:\w+::serial\(%s\)|%s\.serial)" % (x, x)
+
+
+def _sym_pred_matcher(name_rx, a_rx, b_rx):
+    """guard matcher for a symmetric binary predicate `name(A, B)` / `name(B, A)`."""
+    rn, ra, rb = re.compile(name_rx), re.compile(a_rx), re.compile(b_rx)
+
+    def m(rel, a, b):
+        if not (isinstance(rel, tuple) and rel[0] == "pred") or len(a) != 2:
+            return None
+        if not (rn.search(rel[1]) or rn.search(short(rel[1]))):
+            return None
+        x, y = render(a[0]), render(a[1])
+        if (ra.search(x) and rb.search(y)) or (ra.search(y) and rb.search(x)):
+            return True
+        return None
+    return m
+
+
+def _ret_is_literal(t, matcher):
+    """the returned bool is the guard literal itself (`a && b` returns b on the a-edge)."""
+    at = bool_atom(t)
+    if at is None:
+        return False
+    rel, a, b, pos = at
+    m = matcher(rel, a, b)
+    return m is not None and m == pos
+
+
+def _alts(b, t, depth=0):
+    """the values a (possibly multiply assigned) term stands for."""
+    t = strip_deep(t)
+    if t[0] == "var" and depth < 3:
+        out = []
+        for _, v in outcome(b).sym.defs_of_var(t[2]):
+            out += _alts(b, v, depth + 1)
+        return out
+    return [t]
+
+
+def _unmut(t):
+    t = strip_deep(t)
+    while t[0] == "mvar":
+        t = strip_deep(t[3])
+    return t
+
+
+def _is_delta_list(f, t, depth=0):
+    """term denotes the notification's list of deltas (the Ok payload of `self.deltas`, directly or via an accessor of
+    `self` every result of which is that payload or an empty slice)."""
+    t = _unmut(t)
+    if render(t) == "self.deltas↓Ok.0":
+        return True
+    if t[0] == "call" and len(t[2]) == 1 and render(t[2][0]) == "self" and depth < 2:
+        cb = f.body((t[3] or {}).get("res") or t[1])
+        if cb is None or cb.arg_count != 1 or cb.local_name(1) != "self" or cb.cycles_sccs():
+            return False
+        vals = [v for _, _, x in success_values(cb) for v in _alts(cb, x)]
+        real = [v for v in vals if _is_delta_list(f, v, depth + 1)]
+        rest = [v for v in vals if not _is_delta_list(f, v, depth + 1)]
+        return bool(real) and all(v[0] == "agg" and v[1] == "array" and not v[3] for v in rest)
+    return False
+
+
+def _const_is(t, n):
+    t = strip_deep(t)
+    return t[0] == "const" and not isinstance(t[1], bool) and t[1] == n
+
+
+def _receiver_shape(f, t):
+    """How the iterated value relates to the delta list: 'each' (its elements), 'windows' (adjacent pairs as 2-slices),
+    'zip' (adjacent pairs as tuples), 'tail' (all but the first element); None if it is something else."""
+    t = _unmut(t)
+    if _is_delta_list(f, t):
+        return "each"
+    if t[0] != "call":
+        return None
+    name = (t[3] or {}).get("name")
+    a = t[2]
+    if name == "windows" and len(a) == 2 and _is_delta_list(f, a[0]) and _const_is(a[1], 2):
+        return "windows"
+    if name == "zip" and len(a) == 2 and _is_delta_list(f, a[0]) and _receiver_shape(f, a[1]) == "tail":
+        return "zip"
+    if name == "skip" and len(a) == 2 and _is_delta_list(f, a[0]) and _const_is(a[1], 1):
+        return "tail"
+    if name == "index" and len(a) == 2 and _is_delta_list(f, a[0]) and \
+            re.match(r"^ops::RangeFrom::RangeFrom\{start: 1\}$", render(strip_deep(a[1]))):
+        return "tail"
+    return None
+
+
+def _carried_serials(f, b):
+    """names of the locals that carry "the previous element's serial" round a loop: assigned more than once, and only
+    ever the serial of an element of the delta list."""
+    s = outcome(b).sym
+    out = set()
+    for l, ds in b.defs().items():
+        if l <= b.arg_count or len([d for d in ds if d[2] in ("assign", "call")]) < 2:
+            continue
+        vals = [strip_deep(v) for _, v in s.defs_of_var(l)]
+        ok = bool(vals)
+        for v in vals:
+            fld = None
+            if v[0] == "call" and (v[3] or {}).get("name") == "serial" and len(v[2]) == 1:
+                fld = _unmut(v[2][0])
+            elif v[0] == "field" and v[2] == "serial":
+                fld = _unmut(v[1])
+            if fld is None:
+                ok = False
+                break
+            # an element: list[i] / Index::index(list, i) / the item of an iteration over (part of) the list
+            r = render(fld)
+            if not ("self.deltas↓Ok.0" in r or re.search(r"\bNotificationFile::\w+\(self\)", r)):
+                ok = False
+                break
+        if ok:
+            out.add(b.local_name(l) or "_%d" % l)
+    return out
+
+
+def _succ_lit(prev_rx, next_rx):
+    """orderlogic literal "next == prev + 1" in any of its spellings (prev_rx / next_rx: regexes of the two serials)."""
+    P, N = prev_rx, next_rx
+    forms = [
+        (r"num::checked_add\(%s, 1\)" % P, r"option::Option::Some\{0: %s\}" % N),
+        (r"(?:AddWithOverflow|Add)\(%s, 1\)(?:\.0)?" % P, N),
+        (r"(?:AddWithOverflow|Add)\(1, %s\)(?:\.0)?" % P, N),
+        (r"(?:SubWithOverflow|Sub)\(%s, %s\)(?:\.0)?" % (N, P), r"1"),
+        (r"num::checked_sub\(%s, %s\)" % (N, P), r"option::Option::Some\{0: 1\}"),
+        (r"num::checked_sub\(%s, 1\)" % N, r"option::Option::Some\{0: %s\}" % P),
+    ]
+    forms = [(re.compile("^" + l + "$"), re.compile("^" + r + "$")) for l, r in forms]
+
+    def lit(a):
+        if a[0] != "cmp" or a[1] not in ("==", "!="):
+            return None
+        x, y = render(a[2]), render(a[3])
+        for l, r in forms:
+            if (l.match(x) and r.match(y)) or (l.match(y) and r.match(x)):
+                return a[1] == "=="
+        return None
+    return lit
+
+
+def _lit_guard(lit):
+    """guard_fn for MustPass / loop_each_checked from an orderlogic literal: the edges on which the literal holds."""
+    def g(bd, s, bb):
+        t = bd.term(bb)
+        if t["t"] != "switch" or t.get("dty") != "bool":
+            return None
+        e = switch_bool_edges(bd, bb)
+        if e is None:
+            return None
+        a = _OL.atom(s.operand(t["discr"]))
+        truth = True
+        while a[0] == "not":
+            a, truth = a[1], not truth
+        if a[0] in ("const", "switch"):
+            return None
+        m = lit(a)
+        if m is None:
+            return None
+        return [(bb, e[1] if m == truth else e[0])]
+    return g
+
+
+def _forall_deltas(f, b, lit_for, need_update=None):
+    """(ok, detail): `b` returns true only if the delta list is absent / empty or every element (adjacent pair) of it
+    satisfies the literal.  lit_for(shape, element text, body) -> orderlogic literal, or None when the shape does not
+    suit the property.  need_update: names of the carried locals (tail shape): they must be re-assigned on every
+    continuing path of the loop."""
+    oc = outcome(b)
+    sy = oc.sym
+    det = {"sites": []}
+    passing_edges = set()
+    ret_ok = []           # renderings of returned values that mean "every element passed"
+    sites = []
+
+    # -- combinator form ------------------------------------------------------------------------------------------
+    for c in b.calls():
+        if c.name not in _QUANT or c.trait != "std::iter::Iterator" or len(c.args) != 2 or b.is_cleanup(c.bb):
+            continue
+        a = K.arg_terms(c)
+        shape = _receiver_shape(f, a[0])
+        ct = strip(a[1])
+        if shape is None or ct[0] != "closure":
+            continue
+        elem = "‹e›"
+        lit = lit_for(shape, elem, None)
+        if lit is None:
+            det["sites"].append({"at": c.where(), "form": c.name, "over": shape, "problem": "this iteration cannot establish the fact"})
+            continue
+        cb, m = K.closure_env(f, ct, elem)
+        if cb is None:
+            det["sites"].append({"at": c.where(), "form": c.name, "problem": "closure body not found"})
+            continue
+        with _symmod.substituting(m):
+            ok1, d1 = _OL.implies(cb, _Sym(cb), _QUANT[c.name], lit)
+        if not ok1:
+            det["sites"].append({"at": c.where(), "form": "%s(closure) over %s" % (c.name, shape), "closure": cb.name,
+                                 "closure_can_pass_without_the_test": d1})
+            continue
+        if c.dest is None or c.dest["p"]:
+            continue
+        call_text = render(strip_deep(sy.call(b.term(c.bb), c.bb)))
+        sites.append((c.bb, c.name, call_text))
+        det["sites"].append({"at": c.where(), "form": "%s(closure) over %s" % (c.name, shape), "closure": "ok"})
+
+    def comb_edges(bd, s, bb):
+        t = bd.term(bb)
+        if t["t"] != "switch":
+            return None
+        out = []
+        for _, name, text in sites:
+            rx = "^" + re.escape(text) + "$"
+            if name in ("all", "any"):
+                e = bool_place_edge(bd, s, bb, rx, name == "all")
+            else:
+                e = variant_edge(bd, s, bb, rx, 0)
+                if not e and t.get("dty") == "bool":
+                    at = bool_atom(s.operand(t["discr"]))
+                    if at and isinstance(at[0], tuple) and at[0][2] in ("is_none", "is_some") and len(at[1]) == 1 \
+                            and re.match(rx, render(at[1][0])):
+                        fe, te = switch_bool_edges(bd, bb)
+                        e = [(bb, te if (at[0][2] == "is_none") == at[3] else fe)]
+            if e:
+                out += e
+        return out or None
+
+    def ret_guard(t):
+        t = strip_deep(t)
+        pos = True
+        while t[0] == "un" and t[1] == "Not":
+            pos = not pos
+            t = strip_deep(t[2])
+        if t[0] == "call" and (t[3] or {}).get("name") in ("is_none", "is_some") and len(t[2]) == 1:
+            inner = strip_deep(t[2][0])
+            for _, name, text in sites:
+                if name in ("find", "position") and render(inner) == text:
+                    return ((t[3] or {}).get("name") == "is_none") == pos
+            return False
+        for _, name, text in sites:
+            if name in ("all", "any") and render(t) == text:
+                return (name == "all") == pos
+        return False
+
+    # -- loop form ----------------------------------------------------------------------------------------------------
+    loop_exit_edges = set()
+    for c in b.calls():
+        if c.name != "next" or c.trait != "std::iter::Iterator" or b.is_cleanup(c.bb) or not c.args:
+            continue
+        recv = K.arg_terms(c)[0]
+        shape = _receiver_shape(f, recv)
+        if shape is None:
+            continue
+        call_text = render(strip_deep(sy.call(b.term(c.bb), c.bb)))
+        elem = call_text + "↓Some.0"
+        lit = lit_for(shape, elem, b)
+        if lit is None:
+            det["sites"].append({"at": c.where(), "form": "loop", "over": shape, "problem": "this iteration cannot establish the fact"})
+            continue
+        g = _lit_guard(lit)
+        res = loop_each_checked(b, lambda x, c=c: x.bb == c.bb, g, oc=oc)
+        okl = bool(res) and all(ok for _, ok, _ in res)
+        upd = None
+        if okl and shape == "tail" and need_update:
+            # the predecessor is carried in a local: it has to become the current element's serial before the next round
+            names = set(need_update)
+            asg = set()
+            for l, ds in b.defs().items():
+                if (b.local_name(l) or "_%d" % l) not in names:
+                    continue
+                for bi, v in sy.defs_of_var(l):
+                    if re.match("^" + _serial_of(re.escape(elem)) + "$", render(strip_deep(v))):
+                        asg.add(bi)
+            res2 = loop_each_checked(b, lambda x, c=c: x.bb == c.bb, None, oc=oc, require_for_return=False, pass_blocks=asg)
+            upd = bool(asg) and bool(res2) and all(ok for _, ok, _ in res2)
+            okl = okl and upd
+        det["sites"].append({"at": c.where(), "form": "loop over %s" % shape, "each_iteration_guarded": [d for _, _, d in res],
+                             "predecessor_updated": upd})
+        if not okl:
+            continue
+        sites.append((c.bb, "loop", call_text))
+        for sw in switch_on_locals(b, {c.dest["l"]}) if c.dest is not None and not c.dest["p"] else ():
+            for v, tb in b.switch_edges(sw):
+                if v == 0:
+                    loop_exit_edges.add((sw, tb))
+
+    if not sites:
+        det["problem"] = "no loop or all/any/find over the delta list with the required test found"
+        return False, det
+
+    empty = pred_matcher(r"is_empty$", ())
+
+    def guard_fn(bd, s, bb):
+        out = []
+        e = variant_edge(bd, s, bb, r"^self\.deltas$", 1)
+        if e:
+            out += e
+        t = bd.term(bb)
+        if t["t"] == "switch" and t.get("dty") == "bool":
+            at = bool_atom(s.operand(t["discr"]))
+            if at and isinstance(at[0], tuple) and at[0][2] == "is_empty" and len(at[1]) == 1 and _is_delta_list(f, at[1][0]):
+                fe, te = switch_bool_edges(bd, bb)
+                out.append((bb, te if at[3] else fe))
+        e = comb_edges(bd, s, bb)
+        if e:
+            out += e
+        out += [x for x in loop_exit_edges if x[0] == bb]
+        return out or None
+    mp = MustPass(f, lambda c: False, guard_fn=guard_fn, ret_guard=ret_guard, name="every element tested")
+    ok = mp.holds(b.name)
+    if not ok:
+        det["true_reachable_without_the_test"] = K.why(f, mp, b.name)
+    det["check_blocks"] = sorted(bb for bb, _, _ in sites)
+    return ok, det
+
 
 
 def _ord(b, c):
